@@ -180,13 +180,13 @@ Definition resolve (n : Z) (cs : list chunk) : list N :=
   fold_left (fun buf c => blit buf (Z.to_nat (fst c)) (snd c)) cs (repeat 0%N (Z.to_nat n)).
 
 (* File.Setattr with Valid.Size: chunks reaching beyond the new size are cut or dropped;
-   chunks lying wholly inside the new size are NOT kept (no else branch in the Go loop). *)
+   chunks lying wholly inside the new size are kept (the else branch of the Go loop). *)
 Definition truncate_chunks (n : Z) (cs : list chunk) : list chunk :=
   flat_map (fun c =>
     if fst c + zlen (snd c) >? n then
       let k := n - fst c in
       if k >? 0 then [(fst c, firstn (Z.to_nat k) (snd c))] else []
-    else []) cs.
+    else [c]) cs.
 
 Record fmeta := { f_attr : Z;                      (* entry.Attributes.FileSize *)
                   f_chunks : list chunk;           (* entry.Chunks *)
@@ -408,8 +408,7 @@ Definition pfile (ops : list op) : list N := fold_left pstep ops [].
 (* ================= triggers of the known findings =================
    Decidable predicates of the input (history, buffer kind, chunk limit), evaluated on the model's own run:
      k = 0  a truncate below the file size while a dirty list reaches beyond the new size
-     k = 1  a truncate below the file size while a stored chunk lies wholly inside the new size
-     k = 2  a Read served from a visible-interval cache that no longer matches the entry's chunks / size *)
+     k = 1  a Read served from a visible-interval cache that no longer matches the entry's chunks / size *)
 Definition chunk_eqb (a b : chunk) : bool :=
   (fst a =? fst b) && (zlen (snd a) =? zlen (snd b)) && forallb (fun p => N.eqb (fst p) (snd p)) (combine (snd a) (snd b)).
 Fixpoint chunks_eqb (a b : list chunk) : bool :=
@@ -423,14 +422,12 @@ Definition trig_at (dirty_ends : list Z) (m : fmeta) (o : op) : option N :=
   match o with
   | Trunc n =>
       if n <? file_size (f_attr m) (f_chunks m) then
-        if existsb (fun e => n <? e) dirty_ends then Some 0%N
-        else if existsb (fun c => fst c + zlen (snd c) <=? n) (f_chunks m) then Some 1%N
-        else None
+        if existsb (fun e => n <? e) dirty_ends then Some 0%N else None
       else None
   | Read _ _ =>
       match f_pin m with
       | Some (cs, fsz) =>
-          if chunks_eqb cs (live_chunks (f_chunks m)) && (fsz =? file_size (f_attr m) (f_chunks m)) then None else Some 2%N
+          if chunks_eqb cs (live_chunks (f_chunks m)) && (fsz =? file_size (f_attr m) (f_chunks m)) then None else Some 1%N
       | None => None
       end
   | _ => None
